@@ -99,7 +99,14 @@ PURE_LIBC = set("""memcpy memmove memset memcmp memchr strlen strnlen strcmp str
  ldexp ldexpf frexp frexpf fabs fabsf floor ceil round trunc fmod sqrt pow log exp isnan isinf
  abs labs llabs __assert_fail abort
  fprintf printf snprintf sprintf vfprintf vsnprintf fputs fputc putc putchar puts fwrite fflush
- __isnan __isnanf __isinf __fpclassify __fpclassifyf __signbit __signbitf""".split())
+ __isnan __isnanf __isinf __fpclassify __fpclassifyf __signbit __signbitf
+ copysign copysignf copysignl fabsl ldexpl frexpl scalbn scalbnf scalbln scalblnf ilogb ilogbf logb logbf modf modff
+ floorf ceilf roundf truncf lround lroundf llround llroundf rint rintf lrint lrintf nearbyint nearbyintf fmodf sqrtf
+ fmin fminf fmax fmaxf fdim fdimf nan nanf nextafter nextafterf isfinite isnormal __isinff __finite __finitef
+ strnlen memrchr memccpy strncpy strcpy strcat strncat strspn strcspn strpbrk
+ bswap_16 bswap_32 bswap_64 htons htonl ntohs ntohl""".split())
+# (pure in the sense of C13/C17: no allocation, no hidden shared state apart from errno / the floating-point
+#  environment, which are thread-local; bounds of the string routines are C01's business)
 ALLOCATING_LIBC = set("""malloc calloc realloc free reallocarray aligned_alloc posix_memalign memalign valloc pvalloc
  strdup strndup wcsdup asprintf vasprintf getline getdelim open_memstream fmemopen fopen fclose tmpfile
  mmap munmap brk sbrk alloca realpath getcwd""".split())
